@@ -304,6 +304,10 @@ func baseTrees() []fsmodel.Tree {
 	// entries named like the listing file of a metadata-only receive are ordinary entries in an ordinary transfer
 	trees = append(trees, fsmodel.Tree{f(".fsutil-metadata", 21, 30, 1), f("a", 1, 5, 2), d("sub", 3), f("sub/.fsutil-metadata", 22, 31, 4)},
 		fsmodel.Tree{d(".fsutil-metadata", 1), f(".fsutil-metadata/x", 23, 6, 2), f("b", 2, 4, 3)})
+	// a set-gid directory of a foreign group holding entries that belong to root (they inherit the group when created)
+	trees = append(trees, fsmodel.Tree{{Path: "g", Kind: fsmodel.Dir, Perm: 02775, GID: 4242, Mtime: fsmodel.T0 + 1}, f("g/f", 31, 5, 2), d("g/sub", 3), f("g/sub/x", 32, 4, 4), f("top", 33, 3, 5)})
+	// a directory that is a symlink to a sibling directory (a relocated directory), both with children
+	trees = append(trees, fsmodel.Tree{{Path: "cur", Kind: fsmodel.Symlink, Perm: 0777, Mtime: fsmodel.T0 + 1, Link: "real"}, d("real", 2), f("real/x", 34, 5, 3), f("z", 35, 2, 4)})
 	trees[3][0].HL = 1
 	for i := range trees {
 		trees[i].Sort()
